@@ -7,7 +7,6 @@
 #![allow(clippy::type_repetition_in_bounds)]
 
 use std::cmp::Ordering;
-use std::f64::consts::PI;
 use std::fmt::Write;
 use std::ops::Mul;
 
@@ -125,11 +124,17 @@ where
     /// neighbouring cells ensures there are no intersections of when tiling space.
     ///
     fn check_intersection(&self) -> bool {
-        let periodic_range = match (self.cell.a() / self.cell.b(), self.cell.angle()) {
-            (p, a) if 0.5 < p && p < 2. && f64::abs(a - PI / 2.) < 0.2 => 1,
-            (p, a) if 0.3 < p && p < 3. && f64::abs(a - PI / 2.) < 0.5 => 2,
-            _ => 3,
-        };
+        // More shape than cell: some copies have to overlap, whatever their arrangement.
+        if self.shape.area() * self.total_shapes() as f64 > self.cell.area() {
+            return true;
+        }
+        // Copies are wrapped into one cell so they differ by less than one cell along each
+        // lattice vector, and two shapes can only touch when their centres are within twice the
+        // enclosing radius. An image n cells away along a lattice vector is at least
+        // (n - 1) cell heights away, which gives the number of neighbouring cells to search.
+        let reach = 2. * self.shape.enclosing_radius();
+        let height = f64::min(self.cell.a(), self.cell.b()) * self.cell.angle().sin();
+        let periodic_range = i64::max(1, (reach / height).ceil() as i64);
         // Compare within the current cell
         for (index, shape1) in self
             .cartesian_positions()
